@@ -1,4 +1,69 @@
-/- oracle_c18 — placeholder driver (replaced when the C18 model is added). -/
+/-
+  oracle_c18 — line-protocol driver for the C18 model (Model/NetParse.lean).
+  Requests (byte strings hex, "-" = empty):
+    h <fixed:0|1> <cmd> <ntx|-1> <authgot:0|1> <authorized:0|1> <payload>
+        -> <out> L=<locks> S=<steps>
+    f <fixed:0|1> <haskey:0|1> <versionreceived:0|1> <magic> <wire>
+        -> <out> L=<locks> S=<steps>
+    max <cmd-ascii>          -> ok <maxmsgsize as regenerated from core.go>
+    txsize <bytes>           -> ok <n>
+  <out> = ok <tag> <n1,n2,..|-> <blob1,blob2,..|-> | reject <reason> | panic <site with _ for spaces>
+-/
+import GocoinV.Model.NetParse
+import GocoinV.Model.Wire
+import GocoinV.Gen.NetFacts
+import GocoinV.Base.Sha256
 import GocoinV.Base.Proto
-open GocoinV
-def main : IO Unit := Proto.serve () (fun _ _ => ((), "bad-op"))
+open GocoinV GocoinV.NetParse
+
+def commaList (xs : List String) : String :=
+  if xs.isEmpty then "-" else ",".intercalate xs
+
+def lockName : Lock → String
+  | .conn => "c.Mutex" | .rcv => "MutexRcv" | .tx => "TxMutex" | .blockIndex => "BlockIndexAccess" | .compact => "CompactBlocksMutex"
+
+def showOut : Out → String
+  | .ok t ns bs => s!"ok {t} {commaList (ns.map toString)} {commaList (bs.map Hex.encode)}"
+  | .reject r => s!"reject {r}"
+  | .panic s => s!"panic {s.replace " " "_"}"
+
+def showRes (r : Res) : String :=
+  s!"{showOut r.out} L={commaList (r.locks.map lockName)} S={r.steps}"
+
+def newTxI (b : Bytes) : Option (Nat × Nat) :=
+  (Wire.decodeTx b).map fun (t, n) => (t.ins.length, n)
+
+def step (_ : Unit) (toks : List String) : Unit × String :=
+  let bad := ((), "bad-op")
+  match toks with
+  | ["h", fx, cmd, ntx, ag, au, pl] =>
+    match Hex.decode pl, ntx.toInt? with
+    | some pl, some ntx =>
+      let fixed := fx == "1"
+      let E : Env := { txSize := Wire.txSize, newTx := newTxI,
+                       ntx := if ntx < 0 then none else some ntx.toNat,
+                       authGot := ag == "1", authorized := au == "1" }
+      let r :=
+        if fixed then parse E cmd pl
+        else if cmd = "version" then handleVersionG false pl
+        else if cmd = "inv" then processInvG false pl
+        else if cmd = "getblocktxn" then processGetBlockTxnG false E.ntx pl
+        else if cmd = "cmpctblock" then processCmpctBlockG false E.txSize pl
+        else parse E cmd pl
+      ((), showRes r)
+    | _, _ => bad
+  | ["f", fx, hk, vr, magic, w] =>
+    match Hex.decode magic, Hex.decode w with
+    | some magic, some w =>
+      let E : FetchEnv := { magic := magic, maxMsgSize := fun c => Gen.NetFacts.maxMsgSize (bytesStr c),
+                            checksum := fun b => (sha256d b).take 4, hasKey := hk == "1", versionReceived := vr == "1" }
+      ((), showRes (fetchMessageG (fx == "1") E w))
+    | _, _ => bad
+  | ["max", cmd] => ((), s!"ok {Gen.NetFacts.maxMsgSize cmd}")
+  | ["txsize", b] =>
+    match Hex.decode b with
+    | some b => ((), s!"ok {Wire.txSize b}")
+    | none => bad
+  | _ => bad
+
+def main : IO Unit := Proto.serve () step
